@@ -18,6 +18,7 @@ for d in docs[1:]:
     cov["zeroize_build"] = cov.get("zeroize_build", False) or c.get("zeroize_build", False)
     base["wall_s"] += d["wall_s"]
     base["violations"] += d["violations"]
+cov["distinct_nontrivial_note"] = "sum over the parts: a part is a (build of the mode crates) and the same decoded case on another build is a different evaluation; within a part the count is of distinct hashes of decoded values"
 cov["parts"] = [p.split("/")[-1] for p in parts]
 json.dump(base, open(out, "w"), indent=2)
 open(out, "a").write("\n")
